@@ -396,7 +396,7 @@ def emitter_own(ctx: Ctx, rule="R-C17-EMITTER-OWN") -> None:
               f"Connection.middleware is declared as {unparse(mv) if mv is not None else 'missing'}: all connections of the process share one subscriber table, so signals of one connection "
               "reach the subscribers of another", instance="middleware per connection")
     mi = ctx.func(f"{MIDDLEWARE}.__init__")
-    st = [n for n in ast.walk(mi.node) if isinstance(n, (ast.Assign, ast.AnnAssign)) and dotted(n.targets[0] if isinstance(n, ast.Assign) else n.target) == "self.subscribers"]
+    st = [n for n in ast.walk(mi.node) if isinstance(n, (ast.Assign, ast.AnnAssign)) and n.value is not None and dotted(n.targets[0] if isinstance(n, ast.Assign) else n.target) == "self.subscribers"]
     ctx.check(len(st) == 1 and isinstance(st[0].value, ast.Dict) and not st[0].value.keys, rule, mi, "Middleware.subscribers is a fresh dict per instance", "{}", "Middleware.subscribers is not a fresh per-instance dict",
               instance="subscribers per middleware")
     gc = ctx.func(f"{ABC}.MessageBrokerT.get_consumer")
